@@ -500,15 +500,22 @@ class FileIndex(Index):
         from whoosh.reading import SegmentReader, MultiReader, EmptyReader
 
         if reuse:
-            # Merge segments with reuse segments
-            segments.extend([segment for segment in reuse.segments() if segment not in segments])
+            # Keep the reused reader's segments that never belonged to a TOC
+            # (a BufferedWriter's in-memory segment). Segments of the index
+            # that are missing from the new TOC were merged away or deleted
+            # and must not come back.
+            from whoosh.codec.memory import MemSegment
+
+            segments.extend([segment for segment in (reuse.segments() or ())
+                             if isinstance(segment, MemSegment)
+                             and segment not in segments])
 
         reusable = {}
         try:
             if len(segments) == 0:
                 # This index has no segments! Return an EmptyReader object,
                 # which simply returns empty or zero to every method
-                return EmptyReader(schema)
+                return EmptyReader(schema, generation=generation)
 
             if reuse:
                 # Put all atomic readers in a dictionary
